@@ -5,8 +5,8 @@ import (
 	"fmt"
 	"io"
 
-	simcommon "github.com/tsenart/vegeta/v12/internal/zzsim/common"
 	"github.com/tsenart/vegeta/v12/internal/simrt"
+	simcommon "github.com/tsenart/vegeta/v12/internal/zzsim/common"
 	vegeta "github.com/tsenart/vegeta/v12/lib"
 )
 
